@@ -173,12 +173,25 @@ func schedReplayMain(args []string) {
 	for bi, b := range behs {
 		tm := vt.Map(b["tree"])
 		tr := parseTree(tm)
-		root := tr.build(1)
+		var root core.Schedule
 		t0 := time.Now()
-		if tr.mode == "explicit" {
-			root.Start(t0)
-		}
+		setupPanic := func() (p interface{}) {
+			defer func() { p = recover() }()
+			root = tr.build(1)
+			if tr.mode == "explicit" {
+				root.Start(t0)
+			}
+			return nil
+		}()
 		w.Emit(srReset{Ev: "reset", B: bi, Tree: tm})
+		if setupPanic != nil {
+			// construction or the explicit Start panicked: recorded as a step no caller of the specification can take
+			first := vt.Map(vt.List(b["hist"])[0])
+			w.Emit(srStep{Ev: "step", B: bi, C: vt.Str(first["c"]), Op: "N", Site: "setup-panic",
+				Ret: []interface{}{"panic", fmt.Sprint(setupPanic)}})
+			diverged++
+			continue
+		}
 		toTicks := func(t time.Time) (int, bool) {
 			d := t.Sub(t0)
 			k := (d + srTick/2) / srTick
